@@ -41,6 +41,15 @@ type ObResult struct {
 	FailPos    string   `json:"fail_pos,omitempty"`
 	FailQuery  string   `json:"-"`
 	FailEvents []string `json:"fail_events,omitempty"`
+	// Failures lists every failing instance by its witness (the instance,
+	// input or site it is about), so that known findings can be matched
+	// per instance.
+	Failures []Failure `json:"failures,omitempty"`
+}
+
+type Failure struct {
+	Witness string `json:"witness"`
+	Status  string `json:"status"`
 }
 
 // Sink collects obligations of a pass.
@@ -191,6 +200,19 @@ func (k *Sink) SolveAll(ctx *Ctx, cfg *SolverConfig) []*ObResult {
 				r.Backends["vacuity-"+res.Status.String()]++
 			}
 			continue
+		}
+		if res.Status != Unsat {
+			w := inst.Pos
+			if len(inst.Trace) > 0 {
+				w = inst.Trace[len(inst.Trace)-1]
+			}
+			st := "undecided"
+			if res.Status == Sat {
+				st = "violated"
+			}
+			if len(r.Failures) < 50 {
+				r.Failures = append(r.Failures, Failure{Witness: w, Status: st})
+			}
 		}
 		switch res.Status {
 		case Unsat:
